@@ -29,7 +29,7 @@ CONSTANTS MaxDepth,     \* longest package directory, in elements below GOPATH/s
           MainKinds,    \* subset of {"string", "file"}
           MaxMainDepth, \* deepest directory for a main file
           AllowRel,     \* generate relative imports
-          Family,       \* "all" | "multi" | "triple": which trees the exhaustive Init takes
+          Family,       \* "all" | "multi" | "triple" | "nested": which trees the exhaustive Init takes
           Excl          \* apply the named exclusions of the known findings
 
 Names == {"a", "b"}
@@ -294,8 +294,15 @@ Trees == UNION {kSubset(k, PkgDirs(MaxDepth)) : k \in 1..MaxPkgs}
 Multi(T) == \E d, e \in T : d # e /\ PathOf(d) = PathOf(e)
 \* trees in which some import path is present in three places
 Triple(T) == \E d, e, f \in T : d # e /\ e # f /\ d # f /\ PathOf(d) = PathOf(e) /\ PathOf(e) = PathOf(f)
+\* trees with a package directory d BELOW another package directory I (two elements or more) and a third directory e
+\* whose import path is the last element of I followed by what d adds to I (I = x/lib, d = x/lib/sub, e = lib/sub):
+\* an import of "lib/sub" in I has the directory I/sub lying next to it, which is no candidate of the vendor rule
+Nested(T) == \E I, d, e \in T :
+                /\ Len(I) >= 2 /\ d # I /\ IsPrefix(I, d) /\ e # d
+                /\ PathOf(e) = <<I[Len(I)]>> \o SubSeq(d, Len(I) + 1, Len(d))
 FamilyTrees == CASE Family = "multi"  -> {T \in Trees : Multi(T)}
                  [] Family = "triple" -> {T \in Trees : Triple(T)}
+                 [] Family = "nested" -> {T \in Trees : Nested(T)}
                  [] OTHER -> Trees
 \* a main file lies in a directory that is no package directory
 \* and not inside a vendor directory (MainNotInVendor: the toolchain aborts on such a layout)
